@@ -1,13 +1,15 @@
 (* MpScopeClient.v — the archive scope classes as a CLIENT of the IMsgPackReader interface (the adaptive
    clients of MpStreamModel.v): the reader operations FindValueByKey / ReadKey / ResetKey / the typed reads /
    OpenObjectScope / the destructors of MpScopeModel.v issue, one after the other, each decision taken from
-   the answers seen so far.  Fragment of the history language (frag_reqs): everything except the guarded request
-   ATry — RGet (any key kind, any target), RObj, RArr with AGet / AObj / AArr / ABin / AEnd, RBin, RVisit, REach with
-   VSkip / VGet / VObj / VArr / VBin / VBinArr (nested to any depth) — repeated, absent, out-of-order keys, arrays
-   and byte arrays left partly read included; AThrow / VThrow (the caller's own code throws) are admitted, the client
-   stops there.
+   the answers seen so far.  Fragment of the history language (frag_reqs): everything, the guarded request only
+   around an element load — RGet (any key kind, any target), RObj, RArr with AGet / AObj / AArr / ABin / AEnd /
+   ATry (AGet ..), RBin, RVisit, REach with VSkip / VGet / VObj / VArr / VBin / VBinArr (nested to any depth) —
+   repeated, absent, out-of-order keys, arrays and byte arrays left partly read included; AThrow / VThrow (the
+   caller's own code throws) are admitted, the client stops there; ATry around a request that opens a child scope is
+   not (the catch would need the unwinding of the child scopes).
    Proved here: on the string reader the client returns what run_obj_root / run_arr_root returns (whenever that is
-   Done .. false), and all its seeks stay inside the data. *)
+   Done .. false); when the model's run ends in an exception (no scope having failed to close) the client's run ends
+   in the reader's exception of that class, or stops where the scopes throw themselves; all seeks stay inside the data. *)
 From BS Require Import Base MpSpec MpModel MpLemmas MpReader MpTyped MpScopeSpec MpScopeModel MpScopeLemmas MpScopeTyped MpScopeProofs MpScopeRefine.
 From BS Require StreamIStream StreamSpec StreamModel StreamBsrProofs MpStreamModel MpStreamProofs.
 From Coq Require Import ZifyBool ZifyN ZifyNat.
@@ -249,6 +251,9 @@ with c_areq (n : nat) (a : areq) (ast : ascope) (p : N) (k : list tok -> ascope 
   | ABin cnt =>
     if a_index ast =? a_size ast then fail
     else c_bin_open n cnt (fun toks p4 => k toks next p4) (fun p2 => k [KNone] next p2) (k [KNone] ast p)
+  | ATry (AGet t) =>      (* try { load the next element } catch (OutOfRange): CheckEnd failed on THIS array: caught, nothing moved *)
+    if a_index ast =? a_size ast then k [KCaught] ast p
+    else c_read_target t (fun tk p2 => k [tk] next p2)
   | _ => fail
   end
 with c_areqs (n : nat) (l : areqs) (ast : ascope) (p : N) (k : list tok -> ascope -> N -> cl) {struct l} : cl :=
@@ -299,7 +304,8 @@ Fixpoint frag_req (r : req) : bool :=
 with frag_reqs (l : reqs) : bool :=
   match l with RNil => true | RCons r l' => frag_req r && frag_reqs l' end
 with frag_areq (a : areq) : bool :=
-  match a with AGet _ => true | AObj body => frag_reqs body | AArr body => frag_areqs body | ABin _ => true | AEnd => true | AThrow _ => true | ATry _ => false end
+  match a with AGet _ => true | AObj body => frag_reqs body | AArr body => frag_areqs body | ABin _ => true | AEnd => true | AThrow _ => true
+  | ATry (AGet _) => true | ATry _ => false end
 with frag_areqs (l : areqs) : bool :=
   match l with ANil => true | ACons a l' => frag_areq a && frag_areqs l' end
 with frag_vact (a : vact) : bool :=
@@ -310,6 +316,10 @@ with frag_vact (a : vact) : bool :=
 with frag_vacts (l : vacts) : bool :=
   match l with VANil => true | VACons a l' => frag_vact a && frag_vacts l' end.
 
+(* what a run of the client against the string reader ends in: the client's result, or the reader's exception of
+   class e (the run ends there; what the unwinding destructors do is not part of it), or the model's fuel *)
+Inductive obs := ORet (a : cresult) | OErr (e : err) | OFuel.
+
 Section ClientProofs.
   Variable narrow : N -> option N.
   Variable widen : N -> N.
@@ -319,7 +329,17 @@ Section ClientProofs.
   Definition pos (d : list N) : N := N.of_nat (length data - length d).
   Definition cs_of (st : oscope) : cscope := mkC (pos (o_start st)) (o_size st) (o_index st) (o_key st).
   Notation Suf := (SP.Suffix data).
-  Definition SND (c : cl) (d : list N) : option cresult := snd (SM.str_client narrow widen data o c [] d).
+  Fixpoint SND (c : cl) (d : list N) : obs :=
+    match c with
+    | SM.CRet a => ORet a
+    | SM.CCall op k =>
+      match SM.str_op narrow widen data o op d with
+      | ROk v r => SND (k (SM.AOkAt v (N.of_nat (length data - length r)))) r
+      | RNot r => SND (k (SM.ANotAt (N.of_nat (length data - length r)))) r
+      | RErr e => OErr e
+      | RFuel => OFuel
+      end
+    end.
   Definition OKS (c : cl) (d : list N) : Prop := SM.client_seeks_ok narrow widen data o c d = true.
   Definition Lpos (p : N) : Prop := p <= N.of_nat (length data).
 
@@ -336,14 +356,24 @@ Section ClientProofs.
     rewrite skipn_app. rewrite Nat.add_0_r, skipn_all, Nat.sub_diag. reflexivity.
   Qed.
 
-  (* ---------- the result does not depend on the transcript so far ---------- *)
-  Lemma snd_indep (c : cl) : forall t d,
-    snd (SM.str_client narrow widen data o c t d) = snd (SM.str_client narrow widen data o c [] d).
+  (* ---------- SND is what str_client does ---------- *)
+  Lemma SND_spec (c : cl) : forall t d,
+    match SND c d with
+    | ORet a => snd (SM.str_client narrow widen data o c t d) = Some a
+    | OErr e => exists tr op, SM.str_client narrow widen data o c t d = (t ++ tr ++ [(op, SM.AErrOf e)], None)
+    | OFuel => snd (SM.str_client narrow widen data o c t d) = None
+    end.
   Proof.
     induction c as [a|op k IH]; intros t d; [reflexivity|].
-    cbn [SM.str_client]. destruct (SM.str_op narrow widen data o op d); cbn [snd]; try reflexivity.
-    - rewrite IH. symmetry. apply IH.
-    - rewrite IH. symmetry. apply IH.
+    cbn [SND SM.str_client]. destruct (SM.str_op narrow widen data o op d) as [v r|r|e|].
+    - specialize (IH (SM.AOkAt v (N.of_nat (length data - length r))) (t ++ [(op, SM.AOkAt v (N.of_nat (length data - length r)))]) r).
+      cbv zeta. destruct (SND _ r); try exact IH. destruct IH as [tr [op' E]]. exists ((op, SM.AOkAt v (N.of_nat (length data - length r))) :: tr), op'.
+      rewrite E, <- app_assoc. reflexivity.
+    - specialize (IH (SM.ANotAt (N.of_nat (length data - length r))) (t ++ [(op, SM.ANotAt (N.of_nat (length data - length r)))]) r).
+      cbv zeta. destruct (SND _ r); try exact IH. destruct IH as [tr [op' E]]. exists ((op, SM.ANotAt (N.of_nat (length data - length r))) :: tr), op'.
+      rewrite E, <- app_assoc. reflexivity.
+    - exists [], op. reflexivity.
+    - reflexivity.
   Qed.
 
   Lemma SND_ccall op k d :
@@ -351,20 +381,20 @@ Section ClientProofs.
     match SM.str_op narrow widen data o op d with
     | ROk v r => SND (k (SM.AOkAt v (pos r))) r
     | RNot r => SND (k (SM.ANotAt (pos r))) r
-    | _ => None
+    | RErr e => OErr e
+    | RFuel => OFuel
     end.
-  Proof.
-    unfold SND. cbn [SM.str_client]. destruct (SM.str_op narrow widen data o op d); cbn [snd]; try reflexivity; apply snd_indep.
-  Qed.
+  Proof. reflexivity. Qed.
 
   Lemma SND_call op k nk d :
     SND (call op k nk) d =
     match SM.str_op narrow widen data o op d with
     | ROk v r => SND (k v (pos r)) r
     | RNot r => SND (nk (pos r)) r
-    | _ => None
+    | RErr e => OErr e
+    | RFuel => OFuel
     end.
-  Proof. unfold call. rewrite SND_ccall. reflexivity. Qed.
+  Proof. unfold call. rewrite SND_ccall. destruct (SM.str_op narrow widen data o op d); reflexivity. Qed.
 
   Section WithReader.
     (* the hypotheses of the mpstream family's reader theorem; used for one fact: the string reader, started at a
@@ -895,6 +925,27 @@ Section ClientProofs.
            | RFuel => ([], NoFuel, false)
            end.
     Proof. reflexivity. Qed.
+    Lemma run_areq_try_get t st d : run_areq narrow widen o (ATry (AGet t)) st d =
+      if a_index st =? a_size st then ([KCaught], Go st d, false)
+      else match read_target narrow widen o t d with
+           | ROk v r => ([KVal v], Go (mkA (a_size st) (a_index st + 1)) r, false)
+           | RNot r => ([KFalse], Go (mkA (a_size st) (a_index st + 1)) r, false)
+           | RErr e => ([], raise_typed e st d, false)
+           | RFuel => ([], NoFuel, false)
+           end.
+    Proof.
+      change (run_areq narrow widen o (ATry (AGet t)) st d) with
+        (match run_areq narrow widen o (AGet t) st d with
+         | (t0, Raise SERange st' (Some r'), f) => (t0 ++ [KCaught], Go st' r', f)
+         | other => other
+         end).
+      rewrite run_areq_get. destruct (a_index st =? a_size st); [reflexivity|].
+      destruct (read_target narrow widen o t d); reflexivity.
+    Qed.
+    Lemma c_areq_try_get n t ast p k : c_areq n (ATry (AGet t)) ast p k =
+      if a_index ast =? a_size ast then k [KCaught] ast p
+      else c_read_target t (fun tk p2 => k [tk] (mkA (a_size ast) (a_index ast + 1)) p2).
+    Proof. reflexivity. Qed.
     Lemma run_vacts_nil st d : run_vacts narrow widen o VANil st d =
       match visit_loop narrow widen o (S (length (o_start st))) st d [] with (_, oc) => ([], oc, false) end.
     Proof. reflexivity. Qed.
@@ -1048,6 +1099,13 @@ Section ClientProofs.
           rewrite E; (split; [reflexivity | exact S2 || exact Hd]).
       - (* AEnd *)
         intros _ st d toks st' d' k Hd H. cbn [run_areq] in H. injection H as <- <- <-. cbn [c_areq]. auto.
+      - (* ATry *)
+        intros a _ Hf st d toks st' d' k Hd. destruct a; try discriminate Hf.
+        rewrite run_areq_try_get, c_areq_try_get.
+        destruct (a_index st =? a_size st); [intros H; injection H as <- <- <-; auto|].
+        pose proof (read_target_sim t d (fun tk p2 => k [tk] (mkA (a_size st) (a_index st + 1)) p2) Hd) as RT.
+        destruct (read_target narrow widen o t d) as [v r2|r2|e|]; try discriminate;
+          intros H; injection H as <- <- <-; exact RT.
       - (* AThrow *)
         intros e _ st d toks st' d' k Hd H. cbn [run_areq] in H. discriminate H.
       - (* ANil *)
@@ -1119,12 +1177,514 @@ Section ClientProofs.
         apply (IHl Hf2 st3 r3 t2 st' d' (fun t2 cst4 p4 => k (t1 ++ t2) cst4 p4)); [rewrite O3; exact O2 | exact S3 | exact H2].
     Qed.
 
+    (* ================= histories that END IN AN EXCEPTION =================
+       EC se c d: the client's run from d ends where the scope model raises se: in the READER's exception of that class
+       (se = SE e, the run ends with AErrOf e), or — for the exceptions the scope classes and their callers raise
+       themselves, without a reader call: "No more items to load" (SERange), "Unsupported key type", the caller's own
+       throw — with the client stopping (result None).  Flag false throughout: no scope failed to close before the
+       exception nor while it propagated (a destructor that cannot skip its rest swallows that error in C++ and
+       goes on; the client's run would end there) *)
+    Definition EC (se : serr) (c : cl) (d : list N) : Prop :=
+      SND c d = ORet None \/ exists e, se = SE e /\ SND c d = OErr e.
+
+    Lemma skip_fail d e p k : skip_at d = AErr e p -> SND (c_skip k) d = OErr e.
+    Proof.
+      intros H. unfold c_skip. rewrite SND_call. cbn [SM.str_op].
+      pose proof (skip_at_value d) as F. rewrite H in F. cbn [forget] in F. rewrite <- F. reflexivity.
+    Qed.
+
+    Lemma read_key_fail d e c k : read_key narrow widen o d = KRaise e c -> EC (SE e) (c_read_key k) d.
+    Proof.
+      unfold read_key, c_read_key, EC. rewrite SND_call. cbn [SM.str_op].
+      destruct (read_value_type d) as [ty|e0] eqn:HT.
+      - destruct ty; intros H; try (injection H as <- _; left; reflexivity);
+          rewrite SND_call; cbn [SM.str_op];
+          match type of H with key_read _ ?rd = _ => destruct rd as [v0 r0|r0|e1|] end;
+          cbn [key_read SM.rres_map] in *; try discriminate; injection H as <- _; right; eexists; split; reflexivity.
+      - intros H. injection H as <- _. right. eexists. split; reflexivity.
+    Qed.
+
+    Lemma reset_fail st d se s p p0 k : reset_key st d = Raise se s p -> EC se (c_reset_key (cs_of st) p0 k) d.
+    Proof.
+      unfold reset_key, c_reset_key. cbn [cs_of c_key]. destruct (o_key st); [|discriminate].
+      destruct (skip_at d) as [r|e p1|] eqn:Hsk; try discriminate. intros H. assert (se = SE e) by congruence. subst se.
+      right. exists e. split; [reflexivity|]. exact (skip_fail d e p1 _ Hsk).
+    Qed.
+
+    Lemma find_loop_fail : forall f n q c st d se x p kf, (f <= n)%nat -> Suf (o_start st) -> Suf d ->
+      find_loop narrow widen o f q c st d = Raise se x p ->
+      EC se (c_find_loop n q c (cs_of st) (pos d) kf) d.
+    Proof.
+      induction f as [|f IH]; intros n q c st d se x p kf Hn Hs Hd H; [discriminate|].
+      destruct n as [|n]; [lia|]. cbn [find_loop c_find_loop] in *. cbn [cs_of c_size c_index c_start].
+      destruct (c <? o_size st); [|discriminate]. unfold EC.
+      rewrite (seek_sim _ (o_start st) d _ Hs Hd).
+      set (w := o_index st =? o_size st) in *.
+      assert (Hd1 : Suf (if w then o_start st else d)) by (destruct w; assumption).
+      set (d1 := if w then o_start st else d) in *.
+      assert (E1 : (if w then c_set_index (cs_of st) 0 else cs_of st) = cs_of (if w then set_index st 0 else st)) by (destruct w; reflexivity).
+      rewrite E1.
+      assert (Hs1 : o_start (if w then set_index st 0 else st) = o_start st) by (destruct w; reflexivity).
+      set (st1 := if w then set_index st 0 else st) in *.
+      destruct (read_key narrow widen o d1) as [k r2|e cl0| |] eqn:HK1; try discriminate.
+      - destruct (read_key_sim d1 k r2
+          (fun k0 p2 => if skey_eq k0 q then kf true (c_set_key (cs_of st1) (Some k0)) p2
+                        else c_skip (fun p3 => c_find_loop n q (c + 1)
+                               (c_set_index (c_set_key (cs_of st1) (Some k0)) (c_index (c_set_key (cs_of st1) (Some k0)) + 1)) p3 kf))
+          Hd1 HK1) as [E2 Hr2].
+        rewrite E2. destruct (skey_eq k q); [discriminate|].
+        destruct (skip_at r2) as [r3|e p1|] eqn:Hsk; try discriminate.
+        + destruct (skip_sim r2 r3 (fun p3 => c_find_loop n q (c + 1)
+                               (c_set_index (c_set_key (cs_of st1) (Some k)) (c_index (c_set_key (cs_of st1) (Some k)) + 1)) p3 kf) Hr2 Hsk) as [E3 Hr3].
+          rewrite E3.
+          apply (IH n q (c + 1) (set_index (set_key st1 (Some k)) (o_index (set_key st1 (Some k)) + 1)) r3 se x p kf);
+            [lia | cbn [set_index set_key o_start]; rewrite Hs1; exact Hs | exact Hr3 | exact H].
+        + assert (se = SE e) by congruence. subst se. right. exists e. split; [reflexivity|]. exact (skip_fail r2 e p1 _ Hsk).
+      - assert (se = SE e) by (destruct cl0; congruence). subst se. exact (read_key_fail d1 e cl0 _ HK1).
+    Qed.
+
+    Lemma find_fail n q st d se x p kf : (length data < n)%nat -> Suf (o_start st) -> Suf d ->
+      find_value_by_key narrow widen o q st d = Raise se x p ->
+      EC se (c_find n q (cs_of st) (pos d) kf) d.
+    Proof.
+      intros Hn Hs Hd. unfold find_value_by_key, c_find. cbn [cs_of c_key].
+      destruct (o_key st) as [k|] eqn:Hk.
+      - destruct (skey_eq k q); [discriminate|].
+        destruct (reset_key st d) as [st1 d1|e s p1| |] eqn:HR; try discriminate.
+        + intros H.
+          destruct (reset_key_sim st d st1 d1 (fun cst1 p1 => c_find_loop n q 0 cst1 p1 kf) Hd HR) as [E1 [S1 O1]].
+          unfold EC. rewrite E1.
+          apply (find_loop_fail (S (length (o_start st1))) n q 0 st1 d1 se x p kf);
+            [rewrite O1; pose proof (suf_len _ Hs); lia | rewrite O1; exact Hs | exact S1 | exact H].
+        + intros H. assert (se = e) by congruence. subst se. exact (reset_fail st d e s p1 (pos d) _ HR).
+      - intros H. apply (find_loop_fail (S (length (o_start st))) n q 0 st d se x p kf); [pose proof (suf_len _ Hs); lia | exact Hs | exact Hd | exact H].
+    Qed.
+
+    Lemma read_target_err t d e : read_target narrow widen o t d = RErr e -> SM.str_op narrow widen data o (op_of_target t) d = RErr e.
+    Proof.
+      destruct t; cbn [op_of_target SM.str_op read_target].
+      - destruct (read_int o t d); cbn [map_rres SM.rres_map]; congruence.
+      - destruct (read_nil o d); cbn [map_rres SM.rres_map]; congruence.
+      - destruct (read_f32 narrow o d); cbn [map_rres SM.rres_map]; congruence.
+      - destruct (read_f64 widen o d); cbn [map_rres SM.rres_map]; congruence.
+      - destruct (read_str o d); cbn [map_rres SM.rres_map]; congruence.
+      - destruct (read_ts o d); cbn [map_rres SM.rres_map]; congruence.
+    Qed.
+
+    Lemma read_target_fail t d e k : read_target narrow widen o t d = RErr e -> SND (c_read_target t k) d = OErr e.
+    Proof. intros H. unfold c_read_target. rewrite SND_call, (read_target_err t d e H). reflexivity. Qed.
+
+    Definition req_fail (n : nat) (r : req) : Prop :=
+      frag_req r = true -> forall st d toks se st' p k, Suf (o_start st) -> Suf d ->
+      run_req narrow widen o r st d = (toks, Raise se st' p, false) -> EC se (c_req n r (cs_of st) (pos d) k) d.
+    Definition reqs_fail (n : nat) (l : reqs) : Prop :=
+      frag_reqs l = true -> forall st d toks se st' p k, Suf (o_start st) -> Suf d ->
+      run_reqs narrow widen o l st d = (toks, Raise se st' p, false) -> EC se (c_reqs n l (cs_of st) (pos d) k) d.
+    Definition areq_fail (n : nat) (a : areq) : Prop :=
+      frag_areq a = true -> forall st d toks se st' p k, Suf d ->
+      run_areq narrow widen o a st d = (toks, Raise se st' p, false) -> EC se (c_areq n a st (pos d) k) d.
+    Definition areqs_fail (n : nat) (l : areqs) : Prop :=
+      frag_areqs l = true -> forall st d toks se st' p k, Suf d ->
+      run_areqs narrow widen o l st d = (toks, Raise se st' p, false) -> EC se (c_areqs n l st (pos d) k) d.
+    Definition vact_fail (n : nat) (a : vact) : Prop :=
+      frag_vact a = true -> forall q st d toks se st' p k, Suf (o_start st) -> Suf d ->
+      run_vact narrow widen o a q st d = (toks, Raise se st' p, false) -> EC se (c_vact n a q (cs_of st) (pos d) k) d.
+    Definition vacts_fail (n : nat) (l : vacts) : Prop :=
+      frag_vacts l = true -> forall st d toks se st' p k, Suf (o_start st) -> Suf d ->
+      run_vacts narrow widen o l st d = (toks, Raise se st' p, false) -> EC se (c_vacts n l (cs_of st) (pos d) k) d.
+
+    Lemma do_get_fail n q t st d toks se st' p fl k : (length data < n)%nat -> Suf (o_start st) -> Suf d ->
+      do_get narrow widen o (find_value_by_key narrow widen o) q t st d = (toks, Raise se st' p, fl) ->
+      EC se (c_do_get n q t (cs_of st) (pos d) k) d.
+    Proof.
+      intros Hn Hs Hd. unfold do_get, lift_find, c_do_get.
+      destruct (find_value_by_key narrow widen o q st d) as [[[|] st1] r1|e [b0 st1] p0| |] eqn:HF; try discriminate.
+      - match goal with |- _ -> EC se (c_find n q _ _ ?kf) d => destruct (find_sim n q st d true st1 r1 kf Hn Hs Hd HF) as [E1 [S1 O1]] end.
+        unfold EC. rewrite E1.
+        destruct (read_target narrow widen o t r1) as [v r2|r2|e|] eqn:HR; try discriminate.
+        intros H. assert (se = SE e) by (unfold raise_typed in H; congruence). subst se.
+        right. exists e. split; [reflexivity|]. exact (read_target_fail t r1 e _ HR).
+      - intros H. assert (se = e) by congruence. subst se. exact (find_fail n q st d e (b0, st1) p0 _ Hn Hs Hd HF).
+    Qed.
+
+    Lemma obj_child_fail n body {P : Type} (notify : P -> P) (pst perr pst' : P) r1 toks se p kk :
+      (length data < n)%nat -> reqs_fail n body -> frag_reqs body = true -> Suf r1 ->
+      match read_map_size o r1 with
+      | ROk sz r2 => with_child (after_child_obj notify pst) (run_reqs narrow widen o body (mkO r2 sz 0 None) r2)
+      | RNot r2 => ([KNone], Go (notify pst) r2, false)
+      | RErr e => ([], raise_typed e perr r1, false)
+      | RFuel => ([], NoFuel, false)
+      end = (toks, Raise se pst' p, false) ->
+      EC se (c_obj_child n (c_reqs n body) kk) r1.
+    Proof.
+      intros Hn IHb Hf HS1. unfold c_obj_child, EC. rewrite SND_call.
+      pose proof (str_op_suffix SM.RdMap r1 HS1 eq_refl) as HS. cbn [SM.str_op] in *.
+      destruct (read_map_size o r1) as [sz r2|r2|e|]; cbn [SM.rres_map] in *; try discriminate.
+      2:{ intros H. assert (se = SE e) by (unfold raise_typed in H; congruence). subst se. right. exists e. split; reflexivity. }
+      unfold with_child.
+      destruct (run_reqs narrow widen o body (mkO r2 sz 0 None) r2) as [[t oc] f1] eqn:HB.
+      unfold after_child_obj, after_child.
+      destruct oc as [cst rest|e cst [rest|]| |].
+      - destruct (close_obj cst rest); discriminate.
+      - destruct (close_obj cst rest) as [r f|]; [|discriminate]. intros H.
+        assert (se = e) by congruence. assert (Hfl : f1 || f = false) by congruence. subst se.
+        apply orb_false_elim in Hfl. destruct Hfl as [-> _].
+        exact (IHb Hf (mkO r2 sz 0 None) r2 t e cst (Some rest) _ HS HS HB).
+      - intros H. assert (se = e) by congruence. assert (Hfl : f1 || false = false) by congruence. subst se.
+        rewrite orb_false_r in Hfl. subst f1.
+        exact (IHb Hf (mkO r2 sz 0 None) r2 t e cst None _ HS HS HB).
+      - discriminate.
+      - discriminate.
+    Qed.
+
+    Lemma arr_child_fail n body {P : Type} (notify : P -> P) (pst perr pst' : P) r1 toks se p kk :
+      (length data < n)%nat -> areqs_fail n body -> frag_areqs body = true -> Suf r1 ->
+      match read_array_size o r1 with
+      | ROk sz r2 => with_child (after_child_arr notify pst) (run_areqs narrow widen o body (mkA sz 0) r2)
+      | RNot r2 => ([KNone], Go (notify pst) r2, false)
+      | RErr e => ([], raise_typed e perr r1, false)
+      | RFuel => ([], NoFuel, false)
+      end = (toks, Raise se pst' p, false) ->
+      EC se (c_arr_child n (c_areqs n body) kk) r1.
+    Proof.
+      intros Hn IHb Hf HS1. unfold c_arr_child, EC. rewrite SND_call.
+      pose proof (str_op_suffix SM.RdArr r1 HS1 eq_refl) as HS. cbn [SM.str_op] in *.
+      destruct (read_array_size o r1) as [sz r2|r2|e|]; cbn [SM.rres_map] in *; try discriminate.
+      2:{ intros H. assert (se = SE e) by (unfold raise_typed in H; congruence). subst se. right. exists e. split; reflexivity. }
+      unfold with_child.
+      destruct (run_areqs narrow widen o body (mkA sz 0) r2) as [[t oc] f1] eqn:HB.
+      unfold after_child_arr, after_child.
+      destruct oc as [cst rest|e cst [rest|]| |].
+      - destruct (close_arr cst rest); discriminate.
+      - destruct (close_arr cst rest) as [r f|]; [|discriminate]. intros H.
+        assert (se = e) by congruence. assert (Hfl : f1 || f = false) by congruence. subst se.
+        apply orb_false_elim in Hfl. destruct Hfl as [-> _].
+        exact (IHb Hf (mkA sz 0) r2 t e cst (Some rest) _ HS HB).
+      - intros H. assert (se = e) by congruence. assert (Hfl : f1 || false = false) by congruence. subst se.
+        rewrite orb_false_r in Hfl. subst f1.
+        exact (IHb Hf (mkA sz 0) r2 t e cst None _ HS HB).
+      - discriminate.
+      - discriminate.
+    Qed.
+
+    Lemma do_obj_fail n body q st d toks se st' p k : (length data < n)%nat -> reqs_fail n body -> frag_reqs body = true ->
+      Suf (o_start st) -> Suf d ->
+      do_obj o (find_value_by_key narrow widen o) (run_reqs narrow widen o body) q st d = (toks, Raise se st' p, false) ->
+      EC se (c_do_obj n (c_reqs n body) q (cs_of st) (pos d) k) d.
+    Proof.
+      intros Hn IHb Hf Hs Hd. unfold do_obj, lift_find, c_do_obj.
+      destruct (find_value_by_key narrow widen o q st d) as [[[|] st1] r1|e [b0 st1] p0| |] eqn:HF; try discriminate.
+      - match goal with |- _ -> EC se (c_find n q _ _ ?kf) d => destruct (find_sim n q st d true st1 r1 kf Hn Hs Hd HF) as [E1 [S1 O1]] end.
+        intros H. unfold EC. rewrite E1.
+        exact (obj_child_fail n body on_finish_child st1 st1 st' r1 toks se p _ Hn IHb Hf S1 H).
+      - intros H. assert (se = e) by congruence. subst se. exact (find_fail n q st d e (b0, st1) p0 _ Hn Hs Hd HF).
+    Qed.
+
+    Lemma do_arr_fail n body q st d toks se st' p k : (length data < n)%nat -> areqs_fail n body -> frag_areqs body = true ->
+      Suf (o_start st) -> Suf d ->
+      do_arr o (find_value_by_key narrow widen o) (run_areqs narrow widen o body) q st d = (toks, Raise se st' p, false) ->
+      EC se (c_do_arr n (c_areqs n body) q (cs_of st) (pos d) k) d.
+    Proof.
+      intros Hn IHb Hf Hs Hd. unfold do_arr, lift_find, c_do_arr.
+      destruct (find_value_by_key narrow widen o q st d) as [[[|] st1] r1|e [b0 st1] p0| |] eqn:HF; try discriminate.
+      - match goal with |- _ -> EC se (c_find n q _ _ ?kf) d => destruct (find_sim n q st d true st1 r1 kf Hn Hs Hd HF) as [E1 [S1 O1]] end.
+        intros H. unfold EC. rewrite E1.
+        exact (arr_child_fail n body on_finish_child st1 st1 st' r1 toks se p _ Hn IHb Hf S1 H).
+      - intros H. assert (se = e) by congruence. subst se. exact (find_fail n q st d e (b0, st1) p0 _ Hn Hs Hd HF).
+    Qed.
+
+    Lemma bin_reads_fail : forall cnt st d toks se st' p k, Suf d ->
+      bin_reads cnt st d = (toks, Raise se st' p) -> EC se (c_bin_reads cnt st (pos d) k) d.
+    Proof.
+      induction cnt as [|m IH]; intros st d toks se st' p k Hd; cbn [bin_reads c_bin_reads]; [discriminate|].
+      destruct (a_index st =? a_size st); [intros _; left; reflexivity|].
+      unfold EC. rewrite SND_call. pose proof (str_op_suffix SM.RdByte d Hd eq_refl) as HS. cbn [SM.str_op] in *.
+      destruct (read_binary d) as [b r|r|e|]; cbn [SM.rres_map] in *; try discriminate.
+      - destruct (bin_reads m (mkA (a_size st) (a_index st + 1)) r) as [t oc] eqn:HB.
+        intros H. assert (oc = Raise se st' p) by congruence. subst oc.
+        exact (IH _ r t se st' p _ HS HB).
+      - intros H. assert (se = SE e) by congruence. subst se. right. exists e. split; reflexivity.
+    Qed.
+
+    Lemma bin_child_fail cnt {P : Type} (notify : P -> P) (pst pst' : P) r2 sz toks se p k0 : Suf r2 ->
+      with_child (after_child_bin notify pst) (plain (bin_reads cnt (mkA sz 0) r2)) = (toks, Raise se pst' p, false) ->
+      EC se (c_bin_reads cnt (mkA sz 0) (pos r2) k0) r2.
+    Proof.
+      intros HS. destruct (bin_reads cnt (mkA sz 0) r2) as [t oc] eqn:HB.
+      unfold with_child, plain. cbn [fst snd]. unfold after_child_bin, after_child.
+      destruct oc as [bst rest|e bst [rest|]| |].
+      - destruct (close_bin bst rest); discriminate.
+      - destruct (close_bin bst rest); [|discriminate]. intros H. assert (se = e) by congruence. subst se.
+        exact (bin_reads_fail cnt (mkA sz 0) r2 t e bst (Some rest) _ HS HB).
+      - intros H. assert (se = e) by congruence. subst se.
+        exact (bin_reads_fail cnt (mkA sz 0) r2 t e bst None _ HS HB).
+      - discriminate.
+      - discriminate.
+    Qed.
+
+    Lemma bin_open_fail n cnt {P : Type} (notify : P -> P) (pst perr pother pst' : P) r1 toks se p kopen knot kother : Suf r1 ->
+      fst (match read_value_type r1 with
+           | inr e => (([], Raise (SE e) perr (Some r1), false), false)
+           | inl TBin =>
+             match read_bin_size o r1 with
+             | ROk sz r2 => (with_child (after_child_bin notify pst) (plain (bin_reads cnt (mkA sz 0) r2)), false)
+             | RNot r2 => (([KNone], Go (notify pst) r2, false), true)
+             | RErr e => (([], raise_typed e perr r1, false), false)
+             | RFuel => (([], NoFuel, false), false)
+             end
+           | inl _ => (([KNone], Go pother r1, false), true)
+           end) = (toks, Raise se pst' p, false) ->
+      EC se (c_bin_open n cnt kopen knot kother) r1.
+    Proof.
+      intros HS. unfold c_bin_open, EC. rewrite SND_call. cbn [SM.str_op].
+      destruct (read_value_type r1) as [ty|e] eqn:HT.
+      2:{ cbn [fst]. intros H. assert (se = SE e) by congruence. subst se. right. exists e. split; reflexivity. }
+      destruct ty; cbn [fst]; try discriminate.
+      rewrite SND_call. pose proof (str_op_suffix SM.RdBin r1 HS eq_refl) as HS2. cbn [SM.str_op] in *.
+      destruct (read_bin_size o r1) as [sz r2|r2|e|]; cbn [SM.rres_map fst] in *; try discriminate.
+      - intros H. exact (bin_child_fail cnt notify pst pst' r2 sz toks se p _ HS2 H).
+      - intros H. assert (se = SE e) by (unfold raise_typed in H; congruence). subst se. right. exists e. split; reflexivity.
+    Qed.
+
+    Lemma do_bin_gen_fail n cnt q st d toks se st' p (declined : bool) k kdecl : (length data < n)%nat -> Suf (o_start st) -> Suf d ->
+      do_bin_gen o (find_value_by_key narrow widen o) cnt q st d = ((toks, Raise se st' p, false), declined) ->
+      EC se (c_do_bin_gen n cnt q (cs_of st) (pos d) k kdecl) d.
+    Proof.
+      intros Hn Hs Hd. unfold do_bin_gen, c_do_bin_gen.
+      destruct (find_value_by_key narrow widen o q st d) as [[[|] st1] r1|e [b0 st1] p0| |] eqn:HF; try discriminate.
+      - match goal with |- _ -> EC se (c_find n q _ _ ?kf) d => destruct (find_sim n q st d true st1 r1 kf Hn Hs Hd HF) as [E1 [S1 O1]] end.
+        intros H. unfold EC. rewrite E1.
+        apply (bin_open_fail n cnt on_finish_child st1 st1 st1 st' r1 toks se p _ _ _ S1). exact (f_equal fst H).
+      - intros H. assert (se = e) by congruence. subst se. exact (find_fail n q st d e (b0, st1) p0 _ Hn Hs Hd HF).
+    Qed.
+
+    Lemma do_bin_fail n cnt q st d toks se st' p k : (length data < n)%nat -> Suf (o_start st) -> Suf d ->
+      do_bin o (find_value_by_key narrow widen o) cnt q st d = (toks, Raise se st' p, false) ->
+      EC se (c_do_bin n cnt q (cs_of st) (pos d) k) d.
+    Proof.
+      intros Hn Hs Hd. unfold do_bin, c_do_bin.
+      destruct (do_bin_gen o (find_value_by_key narrow widen o) cnt q st d) as [r dec] eqn:HG. cbn [fst]. intros ->.
+      exact (do_bin_gen_fail n cnt q st d toks se st' p dec k k Hn Hs Hd HG).
+    Qed.
+
+    Lemma visit_loop_fail : forall f n st d acc toks se st' p k, (f <= n)%nat -> Suf d ->
+      visit_loop narrow widen o f st d acc = (toks, Raise se st' p) ->
+      EC se (c_visit_loop n (cs_of st) (pos d) acc k) d.
+    Proof.
+      induction f as [|f IH]; intros n st d acc toks se st' p k Hn Hd H; [discriminate|].
+      destruct n as [|n]; [lia|]. cbn [visit_loop c_visit_loop] in *. cbn [cs_of c_index c_size].
+      destruct (o_index st <? o_size st); [|discriminate].
+      destruct (read_key narrow widen o d) as [key r1|e cl0| |] eqn:HK1; try discriminate.
+      - destruct (read_key_sim d key r1
+          (fun key p1 => c_reset_key (c_set_key (cs_of st) (Some key)) p1
+             (fun cst2 p2 => c_visit_loop n cst2 p2 (acc ++ [key_of_skey key]) k)) Hd HK1) as [E1 S1].
+        unfold EC. rewrite E1.
+        destruct (reset_key (set_key st (Some key)) r1) as [st2 r2|e s p0| |] eqn:HR; try discriminate.
+        + destruct (reset_key_sim (set_key st (Some key)) r1 st2 r2
+            (fun cst2 p2 => c_visit_loop n cst2 p2 (acc ++ [key_of_skey key]) k) S1 HR) as [E2 [S2 O2]].
+          change (cs_of (set_key st (Some key))) with (c_set_key (cs_of st) (Some key)) in E2. rewrite E2.
+          apply (IH n st2 r2 (acc ++ [key_of_skey key]) toks se st' p k); [lia | exact S2 | exact H].
+        + assert (se = e) by congruence. subst se.
+          exact (reset_fail (set_key st (Some key)) r1 e s p0 (pos r1) _ HR).
+      - assert (se = SE e) by (destruct cl0; congruence). subst se. exact (read_key_fail d e cl0 _ HK1).
+    Qed.
+
+    Lemma programs_fail n : (length data < n)%nat ->
+      (forall r, req_fail n r) /\ (forall l, reqs_fail n l) /\ (forall a, areq_fail n a) /\ (forall l, areqs_fail n l)
+      /\ (forall a, vact_fail n a) /\ (forall l, vacts_fail n l).
+    Proof.
+      intros Hn. destruct (programs_sim n Hn) as [Sreq [Sreqs [Sareq [Sareqs [Svact Svacts]]]]].
+      apply program_mutind.
+      - (* RGet *) intros q t _ st d toks se st' p k Hs Hd. apply (do_get_fail n q t st d toks se st' p false k Hn Hs Hd).
+      - (* RObj *) intros q body IHb Hf st d toks se st' p k Hs Hd. apply (do_obj_fail n body q st d toks se st' p k Hn IHb Hf Hs Hd).
+      - (* RArr *) intros q body IHb Hf st d toks se st' p k Hs Hd. apply (do_arr_fail n body q st d toks se st' p k Hn IHb Hf Hs Hd).
+      - (* RBin *) intros q cnt _ st d toks se st' p k Hs Hd. apply (do_bin_fail n cnt q st d toks se st' p k Hn Hs Hd).
+      - (* RVisit *)
+        intros _ st d toks se st' p k Hs Hd. rewrite run_req_visit, c_req_visit.
+        destruct (reset_key st d) as [st1 d1|e s p0| |] eqn:HR; try discriminate.
+        + destruct (reset_key_sim st d st1 d1
+            (fun cst1 p1 => c_seek_if true (c_start cst1) p1 (fun p' => c_visit_loop n (c_set_index cst1 0) p' [] k)) Hd HR) as [E1 [S1 O1]].
+          unfold EC. rewrite E1. cbn [cs_of c_start].
+          assert (Hs1 : Suf (o_start st1)) by (rewrite O1; exact Hs).
+          rewrite (seek_sim true (o_start st1) d1 _ Hs1 S1).
+          unfold plain. destruct (visit_loop narrow widen o (S (length (o_start st1))) (set_index st1 0) (o_start st1) []) as [t oc] eqn:HV.
+          cbn [fst snd]. intros H. assert (oc = Raise se st' p) by congruence. subst oc.
+          apply (visit_loop_fail (S (length (o_start st1))) n (set_index st1 0) (o_start st1) [] t se st' p k);
+            [pose proof (suf_len _ Hs1); lia | exact Hs1 | exact HV].
+        + intros H. assert (se = e) by congruence. subst se. exact (reset_fail st d e s p0 (pos d) _ HR).
+      - (* REach *)
+        intros acts IHa Hf st d toks se st' p k Hs Hd. cbn [frag_req] in Hf. rewrite run_req_each, c_req_each.
+        destruct (reset_key st d) as [st1 d1|e s p0| |] eqn:HR; try discriminate.
+        + destruct (reset_key_sim st d st1 d1
+            (fun cst1 p1 => c_seek_if true (c_start cst1) p1 (fun p' => c_vacts n acts (c_set_index cst1 0) p' k)) Hd HR) as [E1 [S1 O1]].
+          unfold EC. rewrite E1. cbn [cs_of c_start].
+          assert (Hs1 : Suf (o_start st1)) by (rewrite O1; exact Hs).
+          rewrite (seek_sim true (o_start st1) d1 _ Hs1 S1).
+          intros H. exact (IHa Hf (set_index st1 0) (o_start st1) toks se st' p k Hs1 Hs1 H).
+        + intros H. assert (se = e) by congruence. subst se. exact (reset_fail st d e s p0 (pos d) _ HR).
+      - (* RNil *) intros _ st d toks se st' p k Hs Hd H. discriminate H.
+      - (* RCons *)
+        intros r IHr l IHl Hf st d toks se st' p k Hs Hd. cbn [frag_reqs] in Hf. apply andb_true_iff in Hf. destruct Hf as [Hf1 Hf2].
+        rewrite run_reqs_cons, c_reqs_cons.
+        destruct (run_req narrow widen o r st d) as [[t1 oc1] f1] eqn:H1.
+        destruct oc1 as [st1 r1|e s p0| |]; try discriminate.
+        + destruct (run_reqs narrow widen o l st1 r1) as [[t2 oc2] f2] eqn:H2.
+          intros H. assert (oc2 = Raise se st' p) by congruence. assert (Hfl : f1 || f2 = false) by congruence. subst oc2.
+          apply orb_false_elim in Hfl. destruct Hfl as [-> ->].
+          destruct (Sreq r Hf1 st d t1 st1 r1 (fun t1 cst1 p1 => c_reqs n l cst1 p1 (fun t2 cst2 p2 => k (t1 ++ t2) cst2 p2)) Hs Hd H1) as [E1 [S1 O1]].
+          unfold EC. rewrite E1. exact (IHl Hf2 st1 r1 t2 se st' p _ O1 S1 H2).
+        + intros H. rewrite H in H1. exact (IHr Hf1 st d toks se st' p _ Hs Hd H1).
+      - (* AGet *)
+        intros t _ st d toks se st' p k Hd. rewrite run_areq_get, c_areq_get.
+        destruct (a_index st =? a_size st); [intros _; left; reflexivity|].
+        destruct (read_target narrow widen o t d) as [v r2|r2|e|] eqn:HR; try discriminate.
+        intros H. assert (se = SE e) by (unfold raise_typed in H; congruence). subst se.
+        right. exists e. split; [reflexivity|]. exact (read_target_fail t d e _ HR).
+      - (* AObj *)
+        intros body IHb Hf st d toks se st' p k Hd. rewrite run_areq_obj, c_areq_obj. cbn [frag_areq] in Hf.
+        destruct (a_index st =? a_size st); [intros _; left; reflexivity|]. intros H.
+        exact (obj_child_fail n body (fun s : ascope => s) (mkA (a_size st) (a_index st + 1)) st st' d toks se p _ Hn IHb Hf Hd H).
+      - (* AArr *)
+        intros body IHb Hf st d toks se st' p k Hd. rewrite run_areq_arr, c_areq_arr. cbn [frag_areq] in Hf.
+        destruct (a_index st =? a_size st); [intros _; left; reflexivity|]. intros H.
+        exact (arr_child_fail n body (fun s : ascope => s) (mkA (a_size st) (a_index st + 1)) st st' d toks se p _ Hn IHb Hf Hd H).
+      - (* ABin *)
+        intros cnt _ st d toks se st' p k Hd. rewrite run_areq_bin, c_areq_bin.
+        destruct (a_index st =? a_size st); [intros _; left; reflexivity|]. intros H.
+        apply (bin_open_fail n cnt (fun s : ascope => s) (mkA (a_size st) (a_index st + 1)) st st st' d toks se p _ _ _ Hd).
+        rewrite <- H. destruct (read_value_type d) as [ty|e]; [|reflexivity].
+        destruct ty; try reflexivity. destruct (read_bin_size o d); reflexivity.
+      - (* AEnd *) intros _ st d toks se st' p k Hd H. discriminate H.
+      - (* ATry *)
+        intros a _ Hf st d toks se st' p k Hd. destruct a; try discriminate Hf.
+        rewrite run_areq_try_get, c_areq_try_get.
+        destruct (a_index st =? a_size st); [discriminate|].
+        destruct (read_target narrow widen o t d) as [v r2|r2|e|] eqn:HR; try discriminate.
+        intros H. assert (se = SE e) by (unfold raise_typed in H; congruence). subst se.
+        right. exists e. split; [reflexivity|]. exact (read_target_fail t d e _ HR).
+      - (* AThrow *) intros e _ st d toks se st' p k Hd _. left. reflexivity.
+      - (* ANil *) intros _ st d toks se st' p k Hd H. discriminate H.
+      - (* ACons *)
+        intros a IHa l IHl Hf st d toks se st' p k Hd. cbn [frag_areqs] in Hf. apply andb_true_iff in Hf. destruct Hf as [Hf1 Hf2].
+        rewrite run_areqs_cons, c_areqs_cons.
+        destruct (run_areq narrow widen o a st d) as [[t1 oc1] f1] eqn:H1.
+        destruct oc1 as [st1 r1|e s p0| |]; try discriminate.
+        + destruct (run_areqs narrow widen o l st1 r1) as [[t2 oc2] f2] eqn:H2.
+          intros H. assert (oc2 = Raise se st' p) by congruence. assert (Hfl : f1 || f2 = false) by congruence. subst oc2.
+          apply orb_false_elim in Hfl. destruct Hfl as [-> ->].
+          destruct (Sareq a Hf1 st d t1 st1 r1 (fun t1 ast1 p1 => c_areqs n l ast1 p1 (fun t2 ast2 p2 => k (t1 ++ t2) ast2 p2)) Hd H1) as [E1 S1].
+          unfold EC. rewrite E1. exact (IHl Hf2 st1 r1 t2 se st' p _ S1 H2).
+        + intros H. rewrite H in H1. exact (IHa Hf1 st d toks se st' p _ Hd H1).
+      - (* VSkip *) intros _ q st d toks se st' p k Hs Hd H. discriminate H.
+      - (* VThrow *) intros e _ q st d toks se st' p k Hs Hd _. left. reflexivity.
+      - (* VGet *) intros t _ q st d toks se st' p k Hs Hd. apply (do_get_fail n q t st d toks se st' p false k Hn Hs Hd).
+      - (* VObj *) intros body IHb Hf q st d toks se st' p k Hs Hd. apply (do_obj_fail n body q st d toks se st' p k Hn IHb Hf Hs Hd).
+      - (* VArr *) intros body IHb Hf q st d toks se st' p k Hs Hd. apply (do_arr_fail n body q st d toks se st' p k Hn IHb Hf Hs Hd).
+      - (* VBin *) intros cnt _ q st d toks se st' p k Hs Hd. apply (do_bin_fail n cnt q st d toks se st' p k Hn Hs Hd).
+      - (* VBinArr *)
+        intros cnt body IHb Hf q st d toks se st' p k Hs Hd. cbn [frag_vact] in Hf. rewrite run_vact_binarr.
+        change (c_vact n (VBinArr cnt body) q (cs_of st) (pos d) k) with
+          (c_do_bin_gen n cnt q (cs_of st) (pos d) k
+             (fun t1 cst1 p1 => c_do_arr n (c_areqs n body) q cst1 p1 (fun t2 cst2 p2 => k (t1 ++ t2) cst2 p2))).
+        destruct (do_bin_gen o (find_value_by_key narrow widen o) cnt q st d) as [[[t1 oc1] f1] dec] eqn:HG.
+        destruct dec.
+        + unfold seq_res. destruct oc1 as [st1 r1|e s0 p0| |]; try discriminate.
+          * destruct (do_arr o (find_value_by_key narrow widen o) (run_areqs narrow widen o body) q st1 r1) as [[t2 oc2] f2] eqn:HA.
+            intros H. assert (oc2 = Raise se st' p) by congruence. assert (Hfl : f1 || f2 = false) by congruence. subst oc2.
+            apply orb_false_elim in Hfl. destruct Hfl as [-> ->].
+            destruct (do_bin_gen_sim n cnt q st d t1 st1 r1 true k
+              (fun t1 cst1 p1 => c_do_arr n (c_areqs n body) q cst1 p1 (fun t2 cst2 p2 => k (t1 ++ t2) cst2 p2)) Hn Hs Hd HG) as [E1 [S1 O1]].
+            unfold EC. rewrite E1.
+            exact (do_arr_fail n body q st1 r1 t2 se st' p _ Hn IHb Hf O1 S1 HA).
+          * intros H. rewrite H in HG. exact (do_bin_gen_fail n cnt q st d toks se st' p true _ _ Hn Hs Hd HG).
+        + intros H. rewrite H in HG. exact (do_bin_gen_fail n cnt q st d toks se st' p false _ _ Hn Hs Hd HG).
+      - (* VANil *)
+        intros _ st d toks se st' p k Hs Hd. rewrite run_vacts_nil, c_vacts_nil.
+        destruct (visit_loop narrow widen o (S (length (o_start st))) st d []) as [t oc] eqn:HV.
+        intros H. assert (oc = Raise se st' p) by congruence. subst oc.
+        apply (visit_loop_fail (S (length (o_start st))) n st d [] t se st' p _); [pose proof (suf_len _ Hs); lia | exact Hd | exact HV].
+      - (* VACons *)
+        intros a IHa acts IHl Hf st d toks se st' p k Hs Hd. cbn [frag_vacts] in Hf. apply andb_true_iff in Hf. destruct Hf as [Hf1 Hf2].
+        rewrite run_vacts_cons, c_vacts_cons. cbn [cs_of c_index c_size].
+        destruct (o_index st <? o_size st); [|discriminate].
+        destruct (read_key narrow widen o d) as [key r1|e cl0| |] eqn:HK1; try discriminate.
+        + match goal with |- _ -> EC se (c_read_key ?kf) d => destruct (read_key_sim d key r1 kf Hd HK1) as [E1 S1] end.
+          destruct (run_vact narrow widen o a (qkey_of_skey key) (set_key st (Some key)) r1) as [[t1 oc1] f1] eqn:H1.
+          destruct oc1 as [st2 r2|e s p0| |]; try discriminate.
+          * destruct (reset_key st2 r2) as [st3 r3|e s p0| |] eqn:HR; try discriminate.
+            -- destruct (run_vacts narrow widen o acts st3 r3) as [[t2 oc2] f2] eqn:H2.
+               intros H. assert (oc2 = Raise se st' p) by congruence. assert (Hfl : f1 || f2 = false) by congruence. subst oc2.
+               apply orb_false_elim in Hfl. destruct Hfl as [-> ->].
+               destruct (Svact a Hf1 (qkey_of_skey key) (set_key st (Some key)) r1 t1 st2 r2
+                 (fun t1 cst2 p2 => c_reset_key cst2 p2 (fun cst3 p3 => c_vacts n acts cst3 p3 (fun t2 cst4 p4 => k (t1 ++ t2) cst4 p4)))
+                 Hs S1 H1) as [E2 [S2 O2]].
+               change (cs_of (set_key st (Some key))) with (c_set_key (cs_of st) (Some key)) in E2.
+               destruct (reset_key_sim st2 r2 st3 r3 (fun cst3 p3 => c_vacts n acts cst3 p3 (fun t2 cst4 p4 => k (t1 ++ t2) cst4 p4)) S2 HR) as [E3 [S3 O3]].
+               unfold EC. rewrite E1, E2, E3.
+               apply (IHl Hf2 st3 r3 t2 se st' p _); [rewrite O3; exact O2 | exact S3 | exact H2].
+            -- intros H. assert (se = e) by congruence. assert (f1 = false) by congruence. subst se f1.
+               destruct (Svact a Hf1 (qkey_of_skey key) (set_key st (Some key)) r1 t1 st2 r2
+                 (fun t1 cst2 p2 => c_reset_key cst2 p2 (fun cst3 p3 => c_vacts n acts cst3 p3 (fun t2 cst4 p4 => k (t1 ++ t2) cst4 p4)))
+                 Hs S1 H1) as [E2 [S2 O2]].
+               change (cs_of (set_key st (Some key))) with (c_set_key (cs_of st) (Some key)) in E2.
+               unfold EC. rewrite E1, E2. exact (reset_fail st2 r2 e s p0 (pos r2) _ HR).
+          * intros H. rewrite H in H1. unfold EC. rewrite E1.
+            exact (IHa Hf1 (qkey_of_skey key) (set_key st (Some key)) r1 toks se st' p _ Hs S1 H1).
+        + intros H. assert (se = SE e) by (destruct cl0; congruence). subst se. exact (read_key_fail d e cl0 _ HK1).
+    Qed.
+
+    (* the root scope's run before finish_root *)
+    Definition obj_root_res (h : reqs) : res unit :=
+      match read_map_size o data with
+      | ROk sz body => with_child (after_child_obj (fun u : unit => u) tt) (run_reqs narrow widen o h (mkO body sz 0 None) body)
+      | RNot r => ([KNone], Go tt r, false)
+      | RErr e => ([], raise_typed e tt data, false)
+      | RFuel => ([], NoFuel, false)
+      end.
+    Definition arr_root_res (h : areqs) : res unit :=
+      match read_array_size o data with
+      | ROk sz body => with_child (after_child_arr (fun u : unit => u) tt) (run_areqs narrow widen o h (mkA sz 0) body)
+      | RNot r => ([KNone], Go tt r, false)
+      | RErr e => ([], raise_typed e tt data, false)
+      | RFuel => ([], NoFuel, false)
+      end.
+
+    Lemma obj_root_res_final h : run_obj_root narrow widen o data h = finish_root (obj_root_res h).
+    Proof. unfold run_obj_root, obj_root_res. destruct (read_map_size o data); reflexivity. Qed.
+    Lemma arr_root_res_final h : run_arr_root narrow widen o data h = finish_root (arr_root_res h).
+    Proof. unfold run_arr_root, arr_root_res. destruct (read_array_size o data); reflexivity. Qed.
+
+    Lemma EC_run se c : EC se c data ->
+      snd (SM.str_client_run narrow widen data o c) = Some None \/
+      exists e tr op, se = SE e /\ SM.str_client_run narrow widen data o c = (tr ++ [(op, SM.AErrOf e)], None).
+    Proof.
+      intros [E | [e [-> E]]]; pose proof (SND_spec c [] data) as SP0; rewrite E in SP0; unfold SM.str_client_run.
+      - left. exact SP0.
+      - right. destruct SP0 as [tr [op E0]]. exists e, tr, op. split; [reflexivity | exact E0].
+    Qed.
+
+    Lemma scope_client_fail n h toks se u p : (length data < n)%nat -> frag_reqs h = true ->
+      obj_root_res h = (toks, Raise se u p, false) -> EC se (scope_client n h) data.
+    Proof.
+      intros Hn Hf H. destruct (programs_fail n Hn) as [_ [Fr _]].
+      exact (obj_child_fail n h (fun u : unit => u) tt tt u data toks se p _ Hn (Fr h) Hf (SP.suffix_data data) H).
+    Qed.
+
+    Lemma scope_client_arr_fail n h toks se u p : (length data < n)%nat -> frag_areqs h = true ->
+      arr_root_res h = (toks, Raise se u p, false) -> EC se (scope_client_arr n h) data.
+    Proof.
+      intros Hn Hf H. destruct (programs_fail n Hn) as [_ [_ [_ [Fa _]]]].
+      exact (arr_child_fail n h (fun u : unit => u) tt tt u data toks se p _ Hn (Fa h) Hf (SP.suffix_data data) H).
+    Qed.
+
     (* the client form and the direct model coincide *)
     Lemma scope_client_run n h toks rest : (length data < n)%nat -> frag_reqs h = true ->
       run_obj_root narrow widen o data h = Done toks rest false ->
       snd (SM.str_client_run narrow widen data o (scope_client n h)) = Some (Some (toks, pos rest, false)).
     Proof.
-      intros Hn Hf Hrun. unfold SM.str_client_run. change (snd (SM.str_client narrow widen data o (scope_client n h) [] data)) with (SND (scope_client n h) data).
+      intros Hn Hf Hrun. unfold SM.str_client_run.
+      pose proof (SND_spec (scope_client n h) [] data) as SP0.
+      cut (SND (scope_client n h) data = ORet (Some (toks, pos rest, false))); [intros E0; rewrite E0 in SP0; exact SP0|]. clear SP0.
       destruct (programs_sim n Hn) as [_ [Hreqs _]].
       assert (HW : match read_map_size o data with
                    | ROk sz r2 => with_child (after_child_obj (fun u : unit => u) tt) (run_reqs narrow widen o h (mkO r2 sz 0 None) r2)
@@ -1144,7 +1704,9 @@ Section ClientProofs.
       run_arr_root narrow widen o data h = Done toks rest false ->
       snd (SM.str_client_run narrow widen data o (scope_client_arr n h)) = Some (Some (toks, pos rest, false)).
     Proof.
-      intros Hn Hf Hrun. unfold SM.str_client_run. change (snd (SM.str_client narrow widen data o (scope_client_arr n h) [] data)) with (SND (scope_client_arr n h) data).
+      intros Hn Hf Hrun. unfold SM.str_client_run.
+      pose proof (SND_spec (scope_client_arr n h) [] data) as SP0.
+      cut (SND (scope_client_arr n h) data = ORet (Some (toks, pos rest, false))); [intros E0; rewrite E0 in SP0; exact SP0|]. clear SP0.
       destruct (programs_sim n Hn) as [_ [_ [_ [Hareqs _]]]].
       assert (HW : match read_array_size o data with
                    | ROk sz r2 => with_child (after_child_arr (fun u : unit => u) tt) (run_areqs narrow widen o h (mkA sz 0) r2)
@@ -1437,6 +1999,13 @@ Section ClientProofs.
       apply oks_bin_open; [intros; apply H; assumption | intros; apply H; assumption | intros; apply H; exact Hp].
     - (* AEnd *)
       intros ast p k d Hp H. cbn [c_areq]. apply H; exact Hp.
+    - (* ATry *)
+      intros a _ ast p k d Hp H. destruct a; try apply OKS_fail.
+      change (c_areq n (ATry (AGet t)) ast p k) with
+        (if a_index ast =? a_size ast then k [KCaught] ast p
+         else c_read_target t (fun tk p2 => k [tk] (mkA (a_size ast) (a_index ast + 1)) p2)).
+      destruct (a_index ast =? a_size ast); [apply H; exact Hp|].
+      apply oks_read_target. intros tk p2 d2 Hp2. apply H; exact Hp2.
     - (* ANil *)
       intros ast p k d Hp H. cbn [c_areqs]. apply H; exact Hp.
     - (* ACons *)
